@@ -2,7 +2,7 @@
 """Generates /verif/MANIFEST.json from the table below and validates it."""
 import json, subprocess, sys
 
-HOOK_COMMITS = ["e2c5f5d"]
+HOOK_COMMITS = ["e2c5f5d", "a9e1325"]
 FIX_COMMITS = ["92d05d9","2f27094","fb921a5","7155879","c3211c8","1a593ad","1bc8a7f","47c46e8","98166ae"]
 
 E1 = "E1 bounded-exhaustive configuration enumeration vs Go reference model"
